@@ -2,6 +2,7 @@ import ParryModel.C14.Lemmas
 import ParryModel.C14.Theorems2
 import ParryModel.C14.Theorems3
 import ParryModel.C14.Theorems4
+import ParryModel.C14.Theorems5
 /-!
 # C14 property theorems: persistent contact manifolds, for every linearly ordered field.
 
